@@ -1118,7 +1118,8 @@ func getProcessExpressionTokens(tokens []*Token, index int) ([]*Token, int) {
 	exprTokens := []*Token{}
 	token_index := index
 	for token_index < len(tokens) {
-		if isProcessExprEnd(tokens[token_index].TokenType) {
+		if isProcessExprEnd(tokens[token_index].TokenType) || tokens[token_index].TokenType == EOF {
+			// the end of the input ends the expression too; the caller reports what is missing
 			break
 		} else if tokens[token_index].TokenType == WS {
 			token_index += 1
